@@ -29,6 +29,7 @@ def run(ctx):
         itop, ibot = rng.random() < 0.4, rng.random() < 0.3
         lang = G.build_language(spec, ops, canon=canon, include_top=itop, include_bottom=ibot)
         ctx.setup(spec.sexp(), "ok T")
+        ctx.setup("(aliases)", "ok")
         ns = str(lang.namespace)
         ctypes = sorted((G.py_to_data(t, ops) for t in lang.canon), key=repr)
         if len(ctypes) > (150 if ctx.tier == "quick" else 1500):
@@ -101,11 +102,18 @@ def run(ctx):
                 continue  # Unit cannot be written in type text
             pt = G.ty_py(t, ops)
             txt = pt.text()
+            nontriv = any(a[1] for a in t[1])
+            # the printer and the tokens of the printed form (model: typeText / typeToks)
+            ctx.case(f"(ttext {G.ty_sexp(t)})", "T " + G.str_sexp(txt), {"lang": spec.to_json(), "op": "text", "t": G.ty_str(t, spec)},
+                nontrivial=nontriv, key=(li, "text", t))
             try:
                 back = G.py_to_data(lang.parse_type(txt), ops)
+                ob = "ok " + G.ty_sexp(back)
             except Exception as e:  # noqa
                 back = "E:" + type(e).__name__
-            ctx.evaluations += 1
+                ob = back
+            ctx.case(f"(ptype {G.str_sexp(txt)})", ob, {"lang": spec.to_json(), "op": "parse_type", "text": txt},
+                nontrivial=nontriv, key=(li, "ptype", txt))
             if back != t:
                 ctx.fail(f"parse_type({txt!r}) = {back}", {"check": "text-roundtrip"}, {"lang": spec.to_json(), "t": t})
         # aliases, plain and parameterised
